@@ -92,25 +92,39 @@ Mixed3DS == << Tex(NmB, 8, 8, L8, 81), Tex(NmA, 8, 8, RGBA8, 82), Tex(NmF, 8, 8,
 BigSquare == Tex(NmA, 256, 256, L8, 70)
 BigWide   == IF Quick THEN T3 ELSE Tex(NmC, 512, 128, A8, 71)        \* (thorough only: TLC evaluates every constant)
 BigBytes  == IF Quick THEN T3 ELSE Tex(NmD, 256, 128, RGB565, 73)
-IsBigList(v) == \E i \in 1..Len(v) : Len(v[i].payload) >= 65536
 
-Lists3DS(c) ==
-  << <<>>, <<T1>>, <<T2, T3, T4>>, <<T9, T6, T7, T5, T1, T8>>,
-     \* name lengths around 32 / 64 / 128 / 256 stored bytes, same-shape L8 textures
-     SameShape(L8, 8, 8, LenNames(c, <<0, 1, 31, 32, 33, 63>>)),
-     SameShape(L8, 8, 8, LenNames(c, <<64, 65, 127, 128, 129, 255>>)),
-     SameShape(A8, 8, 8, LenNames(c, <<256, 257>>)),
-     SameShape(RGBA8, 8, 8, SubSeq(ShortNames, 1, 3)),
-     SameShape(ETC1A4, 8, 8, SubSeq(ShortNames, 4, 6)) >>
-  \o << Dec3DS, Mixed3DS, << BigSquare, Tex(NmB, 8, 8, L8, 72) >> >>
-  \o (IF Quick THEN <<>>
-      ELSE << << Tex(NmF, 8, 8, A8, 78), BigWide >>, << BigBytes >>,
-              <<T5, T6>>, <<T7, T8, T9, T1>>, <<T6, T5, T4, T3, T2>>, <<T3, T3>>,
-              SameShape(ETC1, 16, 8, ShortNames), SameShape(RGBA5551, 8, 8, ShortNames),
-              SameShape(RGB565, 8, 16, SubSeq(ShortNames, 1, 4)), SameShape(RGBA4, 8, 8, SubSeq(ShortNames, 2, 5)),
-              SameShape(LA8, 8, 8, SubSeq(ShortNames, 3, 6)),
-              \* one long path-like name
-              SameShape(L8, 8, 8, << LName(c, 700), NmA >>) >>)
+\* the vi-th texture list of a 3DS container (a CASE, so that evaluating one case of the model
+\* evaluates one list only); quick: the first N3DS(quick) lists
+N3DS == IF Quick THEN 12 ELSE 24
+List3DS(c, vi) ==
+  CASE vi = 1  -> <<>>
+    [] vi = 2  -> <<T1>>
+    [] vi = 3  -> <<T2, T3, T4>>
+    [] vi = 4  -> <<T9, T6, T7, T5, T1, T8>>
+    \* name lengths around 32 / 64 / 128 / 256 stored bytes, same-shape L8 textures
+    [] vi = 5  -> SameShape(L8, 8, 8, LenNames(c, <<0, 1, 31, 32, 33, 63>>))
+    [] vi = 6  -> SameShape(L8, 8, 8, LenNames(c, <<64, 65, 127, 128, 129, 255>>))
+    [] vi = 7  -> SameShape(A8, 8, 8, LenNames(c, <<256, 257>>))
+    [] vi = 8  -> SameShape(RGBA8, 8, 8, SubSeq(ShortNames, 1, 3))
+    [] vi = 9  -> SameShape(ETC1A4, 8, 8, SubSeq(ShortNames, 4, 6))
+    [] vi = 10 -> Dec3DS
+    [] vi = 11 -> Mixed3DS
+    [] vi = 12 -> << BigSquare, Tex(NmB, 8, 8, L8, 72) >>
+    \* thorough
+    [] vi = 13 -> << Tex(NmF, 8, 8, A8, 78), BigWide >>
+    [] vi = 14 -> << BigBytes >>
+    [] vi = 15 -> <<T5, T6>>
+    [] vi = 16 -> <<T7, T8, T9, T1>>
+    [] vi = 17 -> <<T6, T5, T4, T3, T2>>
+    [] vi = 18 -> <<T3, T3>>
+    [] vi = 19 -> SameShape(ETC1, 16, 8, ShortNames)
+    [] vi = 20 -> SameShape(RGBA5551, 8, 8, ShortNames)
+    [] vi = 21 -> SameShape(RGB565, 8, 16, SubSeq(ShortNames, 1, 4))
+    [] vi = 22 -> SameShape(RGBA4, 8, 8, SubSeq(ShortNames, 2, 5))
+    [] vi = 23 -> SameShape(LA8, 8, 8, SubSeq(ShortNames, 3, 6))
+    \* one long path-like name
+    [] vi = 24 -> SameShape(L8, 8, 8, << LName(c, 700), NmA >>)
+Big3DS == {12, 13, 14}          \* the lists with a payload of 64 KiB
 
 P1 == PalTex(5, 3, 4, 11)
 P2 == PalTex(8, 4, 16, 12)
@@ -138,21 +152,34 @@ EdgeTpl  == << PalEdge(5, 3, 256, 51), PalEdge(8, 4, 255, 52), PalEdge(5, 3, 2, 
 ASSUME \A i \in 1..Len(EdgeTpl) :
          LET t == EdgeTpl[i]  n == Len(t.pal) \div 2
          IN { EdgeIdx(n, j) : j \in 0..3 } \subseteq CropIndices(t)
+BigPal   == PalEdge(256, 256, 256, 61)
 DecTpl   == << PalTex2(17, 9, 256, 41, 42), PalTex2(16, 8, 40, 43, 44), PalTex2(8, 4, 4, 45, 46) >>
 MixedTpl == << PalTex2(8, 4, 4, 47, 48), PalTex2(16, 8, 256, 49, 50), PalTex2(1, 1, 2, 56, 57),
                PalTex2(9, 9, 40, 58, 59), PalTex2(3, 3, 255, 63, 64) >>
-ListsTpl ==
-  << <<>>, <<P1>>, <<P2, P3, P4>>, <<P1, P2, P3, P4, P6, P3>>,
-     \* same shape and palette LENGTH throughout: same indices / other palette, same palette /
-     \* other indices, both different
-     << PalTex2(8, 4, 16, 21, 31), PalTex2(8, 4, 16, 21, 32), PalTex2(8, 4, 16, 22, 32), PalTex2(8, 4, 16, 23, 33) >>,
-     Tup([i \in 1..6 |-> PalTex2(5, 3, 256, 50 + i, 70 + i)]) >>
-  \o << DecTpl, MixedTpl, EdgeTpl, << PalEdge(256, 256, 256, 61), PalEdge(3, 2, 2, 62) >> >>
-  \o (IF Quick THEN <<>>
-      ELSE << <<P4, P6>>, <<P5, P1, P3, P2>>, <<P6, P4, P3, P2, P1>>, <<P4, P4>>,
-              Tup([i \in 1..6 |-> PalTex2(9, 5, 3, 80, 90 + i)]), Tup([i \in 1..5 |-> PalTex2(1, 1, 1, 5, 100 + 7 * i)]),
-              \* palette lengths alternate: a stale palette of the right length two images back
-              << PalTex2(8, 4, 16, 24, 34), PalTex2(8, 4, 40, 25, 35), PalTex2(8, 4, 16, 26, 36), PalTex2(8, 4, 40, 27, 37) >> >>)
+NTpl == IF Quick THEN 10 ELSE 17
+ListTpl(vi) ==
+  CASE vi = 1  -> <<>>
+    [] vi = 2  -> <<P1>>
+    [] vi = 3  -> <<P2, P3, P4>>
+    [] vi = 4  -> <<P1, P2, P3, P4, P6, P3>>
+    \* same shape and palette LENGTH throughout: same indices / other palette, same palette /
+    \* other indices, both different
+    [] vi = 5  -> << PalTex2(8, 4, 16, 21, 31), PalTex2(8, 4, 16, 21, 32), PalTex2(8, 4, 16, 22, 32), PalTex2(8, 4, 16, 23, 33) >>
+    [] vi = 6  -> Tup([i \in 1..6 |-> PalTex2(5, 3, 256, 50 + i, 70 + i)])
+    [] vi = 7  -> DecTpl
+    [] vi = 8  -> MixedTpl
+    [] vi = 9  -> EdgeTpl
+    [] vi = 10 -> << BigPal, PalEdge(3, 2, 2, 62) >>
+    \* thorough
+    [] vi = 11 -> <<P4, P6>>
+    [] vi = 12 -> <<P5, P1, P3, P2>>
+    [] vi = 13 -> <<P6, P4, P3, P2, P1>>
+    [] vi = 14 -> <<P4, P4>>
+    [] vi = 15 -> Tup([i \in 1..6 |-> PalTex2(9, 5, 3, 80, 90 + i)])
+    [] vi = 16 -> Tup([i \in 1..5 |-> PalTex2(1, 1, 1, 5, 100 + 7 * i)])
+    \* palette lengths alternate: a stale palette of the right length two images back
+    [] vi = 17 -> << PalTex2(8, 4, 16, 24, 34), PalTex2(8, 4, 40, 25, 35), PalTex2(8, 4, 16, 26, 36), PalTex2(8, 4, 40, 27, 37) >>
+BigTpl == {10}
 
 \* ------------------------------------------------------------------ placements
 CtpkP(nf, rev, gap, lead, fill) == [namesFirst |-> nf, rev |-> rev, gap |-> gap, lead |-> lead, fill |-> fill]
@@ -184,16 +211,13 @@ Placements(c) ==
          IF Quick THEN << TplCanonP, TplP(2, TRUE, 5, 204), TplP(3, FALSE, 3, 255) >>
          ELSE SetToSeq({ TplP(ord, rev, g[1], g[2]) : ord \in 1..3, rev \in BOOLEAN,
                          g \in { <<0, 0>>, <<5, 204>>, <<32, 170>> } })
-\* constants (evaluated once by TLC), one per container because the names depend on the encoding
-ListsCtpk == Lists3DS("ctpk")
-ListsBch  == Lists3DS("bch")
-ListsCgfx == Lists3DS("cgfx")
-Lists(c) == CASE c = "ctpk" -> ListsCtpk [] c = "bch" -> ListsBch [] c = "cgfx" -> ListsCgfx [] c = "tpl" -> ListsTpl
+NLists(c) == IF c = "tpl" THEN NTpl ELSE N3DS
+ListAt(c, vi) == IF c = "tpl" THEN ListTpl(vi) ELSE List3DS(c, vi)
+IsBig(c, vi) == vi \in (IF c = "tpl" THEN BigTpl ELSE Big3DS)
 
 \* (the lists with a 64 KiB payload get the first and then every 8th placement)
-Cases == UNION { UNION { { <<c, vi, pi>> : pi \in { q \in 1..Len(Placements(c)) :
-                                                     ~IsBigList(Lists(c)[vi]) \/ q % 8 = 1 } }
-                         : vi \in 1..Len(Lists(c)) }
+Cases == UNION { UNION { { <<c, vi, pi>> : pi \in { q \in 1..Len(Placements(c)) : ~IsBig(c, vi) \/ q % 8 = 1 } }
+                         : vi \in 1..NLists(c) }
                  : c \in Containers }
 CaseSeq == SetToSeq(Cases)
 NBuckets == 24
@@ -201,7 +225,7 @@ NBuckets == 24
 VARIABLE k
 Init == k = <<"root">>
 Next == \/ k = <<"root">> /\ k' \in { <<"bucket", q>> : q \in 0..(NBuckets - 1) }
-        \/ k[1] = "bucket" /\ k' \in { CaseSeq[j] : j \in { q \in 1..Len(CaseSeq) : q % NBuckets = k[2] } }
+        \/ k[1] = "bucket" /\ LET cs == CaseSeq IN k' \in { cs[j] : j \in { q \in 1..Len(cs) : q % NBuckets = k[2] } }
 Spec == Init /\ [][Next]_k
 IsCase == k[1] \in Containers
 
@@ -237,13 +261,13 @@ Law(c, v, p) ==
      /\ ChecksMagic(c) => \A at \in 1..4 : \A x \in {1, 128} : ~WellFormed(c, Damaged(f, at, x))
      \* the canonical placement is one of the layouts
      /\ (c = "ctpk" /\ p = CtpkCanonP) => f = CtpkCanon(v)
-LawInv == IsCase => Law(k[1], Lists(k[1])[k[2]], Placements(k[1])[k[3]])
+LawInv == IsCase => Law(k[1], ListAt(k[1], k[2]), Placements(k[1])[k[3]])
 
 \* ------------------------------------------------------------------ generator
 Emit ==
   IsCase =>
     LET c == k[1]
-        v == Lists(c)[k[2]]
+        v == ListAt(c, k[2])
         p == Placements(c)[k[3]]
         f == File(c, v, p)
         ext == Extents(c, v, p)
